@@ -964,7 +964,7 @@ def check_compose(ix, rep, f, which, rule='R-COMPOSE'):
     n = 0
     bad = []
     try:
-        for conds, stmts in _paths(f.node.body):
+        for conds, stmts in _paths(_expand_ifexp(f.node.body)):
             env = {p: ('p', p) for p in params}
             ret = None
             for st in stmts:
@@ -998,6 +998,25 @@ def check_compose(ix, rep, f, which, rule='R-COMPOSE'):
     else:
         rep.ok(rule, f.module.rel, f.qual, slot, '%d paths: %s' % (n, _tshow(full)), f.node.lineno)
     return n
+
+
+def _expand_ifexp(stmts):
+    """`v = A if c else B`  ->  if c: v = A  else: v = B   (so that the path enumeration sees the condition)"""
+    out = []
+    for st in stmts:
+        if isinstance(st, ast.Assign) and isinstance(st.value, ast.IfExp):
+            a = ast.copy_location(ast.Assign(targets=st.targets, value=st.value.body), st)
+            b = ast.copy_location(ast.Assign(targets=st.targets, value=st.value.orelse), st)
+            out.append(ast.copy_location(ast.If(test=st.value.test, body=[a], orelse=[b]), st))
+        elif isinstance(st, ast.Return) and isinstance(st.value, ast.IfExp):
+            a = ast.copy_location(ast.Return(value=st.value.body), st)
+            b = ast.copy_location(ast.Return(value=st.value.orelse), st)
+            out.append(ast.copy_location(ast.If(test=st.value.test, body=[a], orelse=[b]), st))
+        elif isinstance(st, ast.If):
+            out.append(ast.copy_location(ast.If(test=st.test, body=_expand_ifexp(st.body), orelse=_expand_ifexp(st.orelse)), st))
+        else:
+            out.append(st)
+    return out
 
 
 def _term(ix, f, e, env):
